@@ -428,6 +428,7 @@ func e3BigCase(seed uint64, n int) Case {
 		}
 		var cur atomic.Int64 // generation whose write has STARTED
 		var done atomic.Bool
+		var closing atomic.Bool // the context is being cancelled: reads may now fail (ErrNotRunning), but never lie
 		var wg sync.WaitGroup
 		var snaps atomic.Int64
 		for rd := 0; rd < R; rd++ {
@@ -439,6 +440,9 @@ func e3BigCase(seed uint64, n int) Case {
 					started := int(cur.Load())
 					l, err := c.List()
 					if err != nil {
+						if closing.Load() {
+							return
+						}
 						r.V("C15", "read-error", "List: %v", err)
 						return
 					}
@@ -514,6 +518,9 @@ func e3BigCase(seed uint64, n int) Case {
 						o, err = c.Get("ns", name)
 					}
 					if err != nil {
+						if closing.Load() {
+							return
+						}
 						r.V("C15", "read-error", "Get/List: %v", err)
 						return
 					}
@@ -551,6 +558,32 @@ func e3BigCase(seed uint64, n int) Case {
 				break
 			}
 		}
+		if n%2 == 1 {
+			// the context is cancelled in the MIDDLE of one more relist while the readers
+			// keep reading: a read may fail from now on, but one that succeeds is still a
+			// complete generation
+			started := make(chan struct{})
+			wdone := make(chan struct{})
+			go func() {
+				defer close(wdone)
+				cur.Store(int64(G + 1))
+				close(started)
+				c.Sync(gen(G + 1))
+			}()
+			<-started
+			spin := rng0.Intn(4000)
+			for i := 0; i < spin; i++ {
+				_ = i * i
+			}
+			if rng0.Bool() {
+				runtime.Gosched()
+			}
+			closing.Store(true)
+			cancel()
+			<-wdone
+			<-c.Done()
+			r.Add("cancelled-mid-relist", 1)
+		}
 		done.Store(true)
 		wg.Wait()
 		r.Add("big-histories", 1)
@@ -558,6 +591,139 @@ func e3BigCase(seed uint64, n int) Case {
 		r.Add("big-gets", gets.Load())
 		r.Key(id)
 		r.Sample = map[string]interface{}{"desc": d, "snapshots_checked": snaps.Load()}
+	}}
+}
+
+// e3ChurnCase: many caches live and die in one process while their readers are
+// busy; a long-lived cache is read all along.  Whatever a cache returns must be
+// ITS content: every object is stamped with the cache it was written to.
+// (Real time, real parallelism: no bubble.)
+func e3ChurnCase(seed uint64, n int) Case {
+	id := fmt.Sprintf("E3/churn/%d/%d", seed, n)
+	rng0 := kit.NewRng(kit.Mix(seed, uint64(n)+3900))
+	procs := []int{2, 4, 8, 16}[rng0.Intn(4)]
+	rounds := 120
+	return Case{ID: id, Desc: map[string]interface{}{"seed": seed, "n": n, "short_lived_caches": rounds, "gomaxprocs": procs, "what": "reads on many caches racing with their shutdown; every result must come from the cache that was asked"}, Bubble: false, Run: func(r *Res) {
+		old := runtime.GOMAXPROCS(procs)
+		defer runtime.GOMAXPROCS(old)
+		keys := []string{"a", "b", "c", "d", "e", "f"}
+		fill := func(c *kcache.VerifCache, tag string, ver int) bool {
+			var l []metav1.Object
+			for i, k := range keys {
+				l = append(l, kit.Pod("ns", k, fmt.Sprint(ver*10+i), map[string]string{"cache": tag}))
+			}
+			_, err := c.Sync(l)
+			return err == nil
+		}
+		check := func(tag string, o metav1.Object, what string) bool {
+			if o == nil {
+				return true
+			}
+			if got := o.GetLabels()["cache"]; got != tag {
+				r.V("C15", "foreign-object-returned", "%s on cache %q returned %s@%s, an object that was only ever written to cache %q", what, tag, kit.Key(o), o.GetResourceVersion(), got)
+				return false
+			}
+			return true
+		}
+		lctx, lcancel := ctxWithCancel()
+		long := kcache.VerifNewCache(lctx, kit.NullLog{Yield: true}, nil, kit.TNull().Build())
+		defer func() { lcancel(); <-long.Done() }()
+		if !fill(long, "long", 1) {
+			r.Inc("could not fill the long-lived cache")
+			return
+		}
+		var stop atomic.Bool
+		var reads atomic.Int64
+		var wg sync.WaitGroup
+		for g := 0; g < 3; g++ {
+			wg.Add(1)
+			rng := rng0.Fork(uint64(g) + 50)
+			go func() {
+				defer wg.Done()
+				lastV := map[string]int{}
+				for !stop.Load() && !r.Failed() {
+					k := keys[rng.Intn(len(keys))]
+					o, err := long.Get("ns", k)
+					if err != nil {
+						r.V("C15", "read-error", "Get on the long-lived cache: %v", err)
+						return
+					}
+					reads.Add(1)
+					if o == nil {
+						r.V("C15", "torn-get", "Get(ns/%s) on the long-lived cache returned nothing; the key is never deleted", k)
+						return
+					}
+					if !check("long", o, "Get(ns/"+k+")") {
+						return
+					}
+					if kit.Key(o) != "ns/"+k {
+						r.V("C15", "foreign-object-returned", "Get(ns/%s) on the long-lived cache returned %s", k, kit.Key(o))
+						return
+					}
+					v := kit.Atoi(o.GetResourceVersion())
+					if v < lastV[k] {
+						r.V("C15", "reader-went-backwards", "Get(ns/%s) on the long-lived cache returned version %d after %d", k, v, lastV[k])
+						return
+					}
+					lastV[k] = v
+				}
+			}()
+		}
+		for round := 0; round < rounds && !r.Failed(); round++ {
+			tag := fmt.Sprintf("s%d", round)
+			ctx, cancel := ctxWithCancel()
+			c := kcache.VerifNewCache(ctx, kit.NullLog{Yield: true}, nil, kit.TNull().Build())
+			if !fill(c, tag, round+2) {
+				cancel()
+				continue
+			}
+			var swg sync.WaitGroup
+			for g := 0; g < 4; g++ {
+				swg.Add(1)
+				rng := rng0.Fork(uint64(round*8+g) + 900)
+				go func() {
+					defer swg.Done()
+					for i := 0; i < 400; i++ {
+						k := keys[rng.Intn(len(keys))]
+						o, err := c.Get("ns", k)
+						if err != nil {
+							return // the cache is going down: refusing is fine
+						}
+						reads.Add(1)
+						if !check(tag, o, "Get(ns/"+k+")") {
+							return
+						}
+						if i%16 == 15 {
+							l, err := c.List()
+							if err != nil {
+								return
+							}
+							for _, o := range l {
+								if !check(tag, o, "List()") {
+									return
+								}
+							}
+						}
+					}
+				}()
+			}
+			// the cache goes down while its readers are busy
+			for i := 0; i < rng0.Intn(3000); i++ {
+				_ = i * i
+			}
+			cancel()
+			<-c.Done()
+			swg.Wait()
+			if round%10 == 9 {
+				fill(long, "long", round+2) // the long-lived cache moves on (versions only grow)
+			}
+		}
+		stop.Store(true)
+		wg.Wait()
+		r.Add("churn-caches", int64(rounds))
+		r.Add("churn-reads", reads.Load())
+		r.Key(id)
+		r.Sample = map[string]interface{}{"short_lived_caches": rounds, "reads": reads.Load()}
 	}}
 }
 
@@ -571,6 +737,9 @@ func init() {
 		nb := tierPick(tier, 48, 6000)
 		for i := 0; i < nb; i++ {
 			cases = append(cases, e3BigCase(seed, i))
+		}
+		for i := 0; i < tierPick(tier, 16, 1500); i++ {
+			cases = append(cases, e3ChurnCase(seed, i))
 		}
 		return cases
 	})
